@@ -37,7 +37,7 @@ def bounds(tier):
 
 def object_lists(tier):
     objs = [{'a': v} for v in VALUES]
-    out = [[]] + [[o] for o in objs]
+    out = [[]] + [[o] for o in objs] + [[{}], [{}, {'a': 0}, {}], [{'a': {}}, {'b': []}, {'c': ''}]]
     pairs = list(itertools.product(range(len(VALUES)), repeat=2))
     step = 3 if tier == 'quick' else 1
     for (i, j) in pairs[::step]:
@@ -65,6 +65,9 @@ def cases(unit):
     else:
         for off in range(-6, 6):
             yield {'fam': 'file', 'comp': unit['comp'], 'offset': off}
+        if unit['comp'] is None:
+            for total in (65536, 65535, 65537, 131072):
+                yield {'fam': 'file', 'comp': None, 'offset': 0, 'total': total}
 
 
 def viol(comp, sym, detail):
@@ -139,6 +142,11 @@ def run_file(case, acc):
     comp = case['comp']
     pad = 64 * 1024 + case['offset'] - len('{"a":"') 
     objs = [{'a': 'x' * pad + '\U0001F600' + 'tail'}, {'b': [1, 2, {'c': None}]}, {'a': 'é' * 40000}]
+    if case.get('total'):
+        # file of exactly `total` bytes: two lines, the second one ends exactly at the size
+        first = {'k': 1}
+        rest = case['total'] - len('{"k":1}\n') - len('{"a":""}\n')
+        objs = [first, {'a': 'y' * rest}]
     d = tempfile.mkdtemp(prefix='c19-')
     try:
         path = os.path.join(d, 'f.json')
